@@ -455,4 +455,7 @@ def run(ctx, res):
     from ..affine import affine_scope, report_affine
     k8 = report_affine(ctx, res, "R10.8", affine_scope(ctx, [fi], ("Point", "Line", "Plane")), "the distance")
     ctx.require(res, "R10.8", k8, 10, "function contexts examined for position / direction mismatches")
+    # R10.11 a Plane given in general form stores a point that does not depend on the scale of the equation (coverage.py)
+    from ..coverage import check_general_form_point
+    check_general_form_point(ctx, res, "R10.11")
     res.undecided_ob("the value equals the minimum Euclidean distance; zero exactly when intersection(a, b) is not None")
